@@ -9,6 +9,11 @@ TB = "CPython 3.12, crosshair-tool 0.0.110, z3 5.1; the import shim of lib/repo_
 
 # id -> (category, technique, text, note, design_ref, engine)
 CHECKS = {
+    "C22": ("model_checking",
+            "CrossHair/z3 symbolic execution of the real comptime ownership bookkeeping (GuppyObject creation / _use_wire with symbolic copy-drop bounds and use counts), the real frozenlist under every list method, the real struct-object setattr",
+            "Restricted to the kernels: (a) one object from an arbitrary state: a use raises iff it was used before and is not copyable; it is listed as an unused non-droppable value (what the tracer reports as a leak) iff it is not droppable and never used; "
+            "(b) frozenlist: every callable attribute of list (taken from dir(list) at run time) x 11 argument tuples x lengths 0..3, plus 6 in-place statement forms: contents never change; (c) frozen struct objects reject field assignment.",
+            TB + "; stand-in tracing state; copyable => droppable", "DESIGN.md §5 C22", "E1"),
     "C31": ("model_checking",
             "solver-enumerated (CrossHair/z3) exhaustive round trip of a bounded type grammar through the real str(ty) and the real type_from_ast; symbolic display-name choices for the name-uniqueness part",
             "Restricted: every first-order type of constructor depth <= 2 (quick, ~1000 types) / 3 (thorough) over numerics, bool, str, None, qubit, tuples, array, Option, frozenarray, plain and generic structs is printed by the real printer, "
